@@ -26,6 +26,8 @@ var big = make([]byte, 31<<20)
 // size classes: S small, H half the limit (two cross it), L larger than the limit alone
 func classData(c byte) []byte {
 	switch c {
+	case '0':
+		return nil // a task without arguments (checkin, dotnet list-versions): a record with size 0
 	case 'S':
 		return big[:8]
 	case 'H':
@@ -35,7 +37,12 @@ func classData(c byte) []byte {
 	}
 }
 
-func jobSize(c byte) int { return 4 + len(classData(c)) }
+func jobSize(c byte) int {
+	if c == '0' {
+		return 0
+	}
+	return 4 + len(classData(c))
+}
 
 // ---- reference model: one FIFO per directly connected agent ------------------------
 
@@ -94,6 +101,7 @@ func alphabet(thorough bool) []op {
 		{kind: "enq", agent: idP, class: 'S', name: "enq(P,S)"},
 		{kind: "enq", agent: idD, class: 'S', viaOp: true, name: "operator-sleep(D)"},
 		{kind: "checkin", agent: idD, withCB: true, name: "checkin+pending-output(D)"},
+		{kind: "enq", agent: idD, class: '0', name: "enq(D,no-arguments)"},
 	}
 	return a
 }
@@ -153,7 +161,11 @@ func (w *world) apply(o op) (string, string) {
 			}
 		} else {
 			a := w.ts.Agent(o.agent)
-			a.AddJobToQueue(agent.Job{Command: 0x77, RequestID: id, Data: []any{classData(o.class)}})
+			if o.class == '0' {
+				a.AddJobToQueue(agent.Job{Command: 0x77, RequestID: id})
+			} else {
+				a.AddJobToQueue(agent.Job{Command: 0x77, RequestID: id, Data: []any{classData(o.class)}})
+			}
 		}
 		w.m.q[owner] = append(w.m.q[owner], mjob{id: id, class: o.class, target: o.agent})
 		return "", "enq"
@@ -175,7 +187,7 @@ func (w *world) apply(o op) (string, string) {
 		a := w.ts.Agent(owner)
 		hasBig := false
 		for _, j := range want {
-			if j.class != 'S' {
+			if j.class == 'H' || j.class == 'L' {
 				hasBig = true
 			}
 		}
@@ -289,6 +301,9 @@ func (w *world) key() string {
 				continue // the child's own queue is display-only and never drained (not observable at check-in)
 			}
 			c := byte('S')
+			if len(j.Data) == 0 && j.Command == 0x77 {
+				c = '0'
+			}
 			if len(j.Data) > 0 {
 				if d, ok := j.Data[0].([]byte); ok {
 					switch {
